@@ -180,7 +180,7 @@ pub fn run<D: RefDom>(dom: &mut D, code: &str, max_steps: u64, detect_divergence
                             status = RefStatus::Divergent { first_writes: fw, period_writes: pw };
                             break;
                         }
-                        if list.len() < 64 {
+                        if list.len() < 64 && tape.len() <= 512 {
                             list.push(Snapshot { ptr, reads: dom.reads(), writes: dom.writes(), cells: tape.iter().map(|(k, v)| (*k, *v)).collect() });
                         }
                     }
